@@ -42,7 +42,6 @@ func c10OpenTan(regular bool) func(fs vfs.FS, inj *verifc10.KVInjector) (raftio.
 	}
 }
 
-
 // c10TanHook forces / stops log rollover of the tan db holding rep: with
 // MaxLogFileSize 1 every write to a non-empty log first switches to a new log
 // file (index saved, new log created, manifest edited).
